@@ -158,7 +158,7 @@ pub fn arb_reply() -> BoxedStrategy<Reply> {
         1 => Just(Auth::WrongKeySha),
     ];
     let fp = prop_oneof![6 => Just(FpMode::Valid), 3 => Just(FpMode::Absent), 1 => Just(FpMode::Corrupt), 1 => Just(FpMode::Misplaced), 1 => Just(FpMode::CorruptThenValid)];
-    (target, body, 0u8..4, auth, fp, prop_oneof![5 => Just(false), 1 => Just(true)], prop_oneof![5 => Just(0u8), 2 => 0u8..64, 1 => Just(34u8)])
+    (target, body, 0u8..4, auth, fp, prop_oneof![5 => Just(false), 1 => Just(true)], prop_oneof![5 => Just(0u8), 2 => 0u8..128, 1 => Just(34u8), 1 => Just(64u8)])
         .prop_map(|(target, body, extra, auth, fp, dup, twist)| Reply { target, body, extra, auth, fp, dup, twist })
         .boxed()
 }
